@@ -315,7 +315,16 @@ def oracle(ctx, lines, out):
         eo, do = out[n + k], out[n + len(idx) + k]
         if not eo.startswith('ok '):
             total = sum(ref.seg_bits_len_n(ref.KIND[m], ref.seg_count(m, s), ver, level) for m, s in segs)
-            kind = 'overfull' if total > ref.capacity_bits(ver, level) else 'other'
+            # finding D16 is exactly: ONE read group (the final character group, or the count field of an empty final
+            # segment) starts before the end of the data and is zero-extended past it - ReadBits answers EOF on the next
+            # call, so no second group can be invented.  Anything that needs whole further groups is a different defect.
+            capr = (ref.capacity_bits(ver, level) + 7) // 8 * 8
+            lk, ln = ref.KIND[segs[-1][0]], ref.seg_count(segs[-1][0], segs[-1][1])
+            if ln == 0:
+                lastgroup = ref.count_bits_kind(lk, ver, level)
+            else:
+                lastgroup = {'num': {0: 10, 1: 4, 2: 7}[ln % 3], 'alnum': 11 if ln % 2 == 0 else 6, 'byte': 8, 'kanji': 13}[lk]
+            kind = 'other' if total <= ref.capacity_bits(ver, level) else ('overfull' if total - lastgroup < capr else 'overfull-by-whole-groups')
             add('%s:not-reencodable:%s' % (sym, kind), i, '%s v%d l%d: decoded description [%s] (%d bits, capacity %d) does not re-encode: %s' % (
                 sym, ver, level, symgen.show_segs(segs), total, ref.capacity_bits(ver, level), eo[:50]))
             continue
